@@ -5,6 +5,7 @@ import (
 	"encoding/json"
 	"fmt"
 	"reflect"
+	"strings"
 	"time"
 
 	"github.com/ovn-org/libovsdb/simrt"
@@ -23,6 +24,205 @@ import (
 func init() {
 	runByScenario["S6C"] = runS6C
 	runByScenario["S4R"] = runS4R
+	runByScenario["S3R"] = runS3R
+}
+
+// Scenario S3R "mirror of a server that speaks update3": the stub server (not
+// corrupting) feeds a real client through monitor / monitor_cond /
+// monitor_cond_since with update / update2 / update3 notifications. For C01 the
+// cache must mirror the stub's contents after every change (the only place
+// where an uncorrupted update3 stream reaches a client). For C14 the stub also
+// sends notifications the cache must refuse (insert of a row it already holds,
+// delete / modify of a row it does not hold) and, with a single
+// monitor_cond_since monitor, cuts the connection so that the client resumes
+// with found=true and no purge: folding the delivered events must still
+// reproduce the cache.
+func runS3R(e *Env, cfg *RunCfg) {
+	r := simrt.NewRand(cfg.Seed ^ 0x3a)
+	s := &stubServer{e: e, r: r, state: DBState{}, sent: map[string]int{}, remember: true}
+	for _, tn := range e.Sch.TableNames {
+		s.state[tn] = TableData{}
+	}
+	for i := 0; i < 2; i++ {
+		s.mutateState()
+	}
+	e.Sim.Net.ListenRaw(epMain, func(rc *simrt.RawConn) func([]byte) {
+		c := &stubConn{rc: rc}
+		s.conns = append(s.conns, c)
+		return func(f []byte) { s.onFrame(c, f) }
+	})
+	ci := e.NewClient("c0", []string{epMain}, ClientOpts{Reconnect: true, Timeout: 2 * time.Second, BackoffStep: 100 * time.Millisecond})
+	if ci == nil {
+		return
+	}
+	if err := e.ConnectClient(ci, 5*time.Second); err != nil {
+		if !e.Stopped() {
+			e.Fatalf("connect to the stub server failed: %v", err)
+		}
+		return
+	}
+	h := &s3{e: e, cfg: cfg, db: e.Sch.Name}
+	mc := &mirrorClient{ci: ci, spec: ClientSpec{Name: "c0"}, tables: map[string][]string{}}
+	mk := func(dst *[]cacheEvent) *handlerRec { return &handlerRec{e: e, dst: dst} }
+	ci.C.Cache().AddEventHandler(mk(&mc.events))
+	ci.C.Cache().AddEventHandler(mk(&mc.events2))
+	method := []string{"monitor", "monitor_cond", "monitor_cond_since", "monitor_cond_since"}[r.Intn(4)]
+	spec := MonSpec{Owner: "c0", Method: method, Tables: map[string]*MonTable{}}
+	for _, tn := range e.Sch.TableNames {
+		spec.Tables[tn] = &MonTable{Columns: e.Sch.Tables[tn].ColNames, Initial: true, Insert: true, Delete: true, Modify: true}
+	}
+	cm := h.startMonitor(mc, spec)
+	if !h.finishMonitor(mc, cm) {
+		return
+	}
+	e.Probes["stub_monitor_"+method]++
+	conflicts := e.Property == "C14"
+	check := func(i int) bool {
+		if !e.Settle() {
+			return false
+		}
+		var got DBState
+		e.Sim.Try(func() { got, _ = h.cacheState(mc) })
+		if got == nil {
+			return true
+		}
+		if s.state.Rows() > 0 {
+			e.Probes["checked_nonempty"]++
+		}
+		switch e.Property {
+		case "C14":
+			h.checkC14(i, mc, got)
+		default:
+			conn := true
+			e.Sim.Try(func() { conn = ci.C.Connected() })
+			if !conn {
+				e.ViolateK("C01.disconnected", "stub:"+method, "client disconnected from the (well-behaved) stub server after change %d\nclient log: %v", i, tail(ci.Log.lines, 8))
+				return false
+			}
+			if d := DiffStates(s.state, got, e.Sch.TableNames, nil); d != "" {
+				e.ViolateK("C01.mirror", "stub:"+method+":"+map[bool]string{true: "update3", false: "update"}[method == "monitor_cond_since"], "after change %d the cache differs from the stub server's contents (server vs cache), method %s:\n%s\nclient log: %v", i, method, d, tail(ci.Log.lines, 6))
+				return false
+			}
+			e.Probes["cache_vs_stub_compared"]++
+		}
+		return !e.Stopped()
+	}
+	if !check(-1) {
+		return
+	}
+	n := 8 + r.Intn(12)
+	for i := 0; i < n; i++ {
+		s.mutateState()
+		if !check(i) {
+			return
+		}
+		if conflicts && r.Intn(4) == 0 {
+			s.sendConflict()
+			e.Probes["stub_conflicting_notification"]++
+			// the client may drop its connection to rebuild the cache: let it
+			e.RunUntil(func() bool {
+				ok := false
+				e.Sim.Try(func() { ok = e.Quiet() && ci.C.Connected() && ci.C.CurrentEndpoint() != "" })
+				return ok
+			})
+			if e.Stopped() {
+				return
+			}
+			// a rebuild purges the cache without delete events (by design): restart the log
+			if len(s.conns) > 0 && s.conns[len(s.conns)-1] != nil && countOpen(s.conns) >= 1 && reconnected(ci) {
+				var got DBState
+				e.Sim.Try(func() { got, _ = h.cacheState(mc) })
+				if got != nil {
+					mc.events, mc.events2 = snapshotAsAdds(got), snapshotAsAdds(got)
+				}
+			}
+		}
+	}
+	for k, v := range s.sent {
+		e.Probes["stub_"+k] += v
+	}
+	e.ShapeAdd(fmt.Sprintf("S3R %s %d", method, s.sent["notifications"]))
+}
+
+func countOpen(cs []*stubConn) int {
+	n := 0
+	for _, c := range cs {
+		if !c.closed {
+			n++
+		}
+	}
+	return n
+}
+
+// reconnected reports whether the client log shows a reconnect (cache rebuilt).
+func reconnected(ci *ClientInst) bool {
+	n := 0
+	for _, l := range ci.Log.lines {
+		if strings.Contains(l, "reconnected - restarting monitors") {
+			n++
+		}
+	}
+	if n > ci.seenReconnects {
+		ci.seenReconnects = n
+		return true
+	}
+	return false
+}
+
+// snapshotAsAdds restarts an event log from the current cache contents.
+func snapshotAsAdds(st DBState) []cacheEvent {
+	var out []cacheEvent
+	for _, tn := range SortedKeys(st) {
+		for _, u := range SortedKeys(st[tn]) {
+			out = append(out, cacheEvent{Kind: "add", Table: tn, UUID: u, New: st[tn][u]})
+		}
+	}
+	return out
+}
+
+// sendConflict sends every monitor a notification the cache must refuse.
+func (s *stubServer) sendConflict() {
+	for _, c := range s.conns {
+		if c.closed {
+			continue
+		}
+		for _, m := range c.monitors {
+			var table, uuid string
+			for _, tn := range SortedKeys(m.tables) {
+				if us := SortedKeys(s.state[tn]); len(us) > 0 {
+					table, uuid = tn, us[s.r.Intn(len(us))]
+					break
+				}
+			}
+			if table == "" {
+				continue
+			}
+			row := RowToWire(s.state[table][uuid].Project(m.tables[table]))
+			ghost := fmt.Sprintf("00000000-dead-4bad-8000-%012d", s.r.Intn(1000))
+			var ru, ghostRU any
+			if m.method == "monitor" {
+				ru = map[string]any{"new": row}      // insert of a row the cache holds
+				ghostRU = map[string]any{"old": row} // delete of a row it does not hold
+			} else {
+				ru = map[string]any{"insert": row}
+				ghostRU = map[string]any{"modify": map[string]any{}}
+			}
+			tu := map[string]any{table: map[string]any{uuid: ru}}
+			if s.r.Intn(2) == 0 {
+				tu = map[string]any{table: map[string]any{ghost: ghostRU}}
+			}
+			var cookie any
+			_ = json.Unmarshal(m.cookie, &cookie)
+			switch m.method {
+			case "monitor":
+				s.send(c, map[string]any{"method": "update", "params": []any{cookie, tu}, "id": nil})
+			case "monitor_cond":
+				s.send(c, map[string]any{"method": "update2", "params": []any{cookie, tu}, "id": nil})
+			default:
+				s.send(c, map[string]any{"method": "update3", "params": []any{cookie, s.txnID(len(s.history)), tu}, "id": nil})
+			}
+		}
+	}
 }
 
 // Scenario S4R "reconnect to a server that remembers": the same stub server,
@@ -177,7 +377,7 @@ type stubServer struct {
 	txn    int
 	notifN int
 	// history[k] is the state after k changes; ids[k] its transaction id (a server that remembers)
-	history []DBState
+	history  []DBState
 	remember bool
 	// corruption budget: probability (permil) of corrupting each kind of frame
 	pSchema, pReply, pNotif int
